@@ -194,7 +194,7 @@ def jobs(tier, seed):
         out.append({"part": "recycle", "menu": "trees", "root": root, "depth": depth - 2})
     m4 = opx.Machine(menu=TREES3_MENU, njob=3, targets_menu=((),), fs_events=False, exits=["ok"])
     for root in opx.split_frontier(m4, TREES3_ROOT, 2):
-        out.append({"part": "recycle", "menu": "trees3", "root": root, "depth": 4 if tier == "quick" else 6})
+        out.append({"part": "recycle", "menu": "trees3", "root": root, "depth": 4 if tier == "quick" else 5})
     m2 = opx.Machine(menu=SUBS_MENU, njob=3, targets_menu=((),), fs_events=False, exits=["ok"], allow_kill=False)
     for root in opx.split_frontier(m2, [("start", ())], 1):
         out.append({"part": "recycle", "menu": "subs", "root": root, "depth": 3 if tier == "quick" else 4})
